@@ -251,6 +251,13 @@ func (g *Gen) asciiStr(maxLen int) string {
 }
 
 func (g *Gen) newVar() string {
+	if g.Indexed && g.pick(8) == 0 {
+		// an indexed name whose base is no variable of its own
+		g.varSeq++
+		n := fmt.Sprintf("slot%d[%d]", g.varSeq, g.pick(3))
+		g.names = append(g.names, n)
+		return n
+	}
 	if g.Indexed && len(g.names) > 0 && g.pick(4) == 0 {
 		cand := fmt.Sprintf("%s[%d]", g.names[g.pick(len(g.names))], g.pick(3))
 		fresh := true
